@@ -35,3 +35,16 @@ pub mod resumption;
 
 // Two certificates (NOC and ICAC), plus ECDSA etc -> approx 950b, doing 1024 to be safe
 const CASE_LARGE_BUF_SIZE: usize = MAX_CERT_TLV_LEN * 2 + 224;
+
+/// Verification hook: public wrapper of the (crate-private) CASE certificate chain validation.
+#[cfg(rs_matter_verif)]
+pub fn verif_validate_certs<C: crate::crypto::Crypto>(
+    crypto: &C,
+    time: crate::dm::clusters::time_sync::UtcTime,
+    fabric: &crate::fabric::Fabric,
+    noc: &crate::cert::CertRef,
+    icac: Option<&crate::cert::CertRef>,
+    tmp_buf: &mut [u8],
+) -> Result<(), crate::error::Error> {
+    casep::CaseP::<C>::new().validate_certs(crypto, time, fabric, noc, icac, tmp_buf)
+}
